@@ -272,11 +272,15 @@ static int modeBig()
     }
     s += "</query></iq><message from='b@im.example.com/y'><body>after the roster</body></message></stream:stream>";
     Delivery ref = deliver({ s });
+    // the stream consists of 5 events by construction: open, presence, roster result, message, close
+    int burst = ref.events.size() == 5 && ref.events.last() == QStringLiteral("CLOSE") ? 0 : 1;
+    printf("whole stream in one burst (%d readyRead signals): %d of 5 events delivered%s\n", ref.reads, int(ref.events.size()),
+           burst ? ": bytes were left in the socket or lost, POST=VIOLATED" : "");
     QList<QByteArray> parts;
     for (int off = 0; off < s.size(); off += 4096) parts << s.mid(off, 4096);
     Delivery d = deliver(parts);
     printf("stream of %d bytes with one %d KB element; %d reads of 4096 bytes\n", int(s.size()), int(s.size() / 1024), int(parts.size()));
-    int rc = compare("reads of 4096 bytes", ref, d);
+    int rc = compare("reads of 4096 bytes", ref, d) | burst;
     printf("%s\n", rc ? "POST=VIOLATED (REPRODUCED)" : "NOT-REPRODUCED");
     return rc;
 }
